@@ -1419,6 +1419,12 @@ def run(ctx, extra_cov=None):
     }
     if extra_cov:
         cov.update(extra_cov)
+        m = extra_cov.get("mapping_exploration")
+        if m:
+            for k in ("states", "transitions", "traces_validated_against_impl"):
+                cov[k] += m[k]
+            cov["samples"] += m.get("samples", [])[:2]
+            cov["exhaustive"] = cov["exhaustive"] and m["exhaustive"]
     return ctx.finish(
         "model_checking",
         cov,
